@@ -40,16 +40,16 @@ def run(ctx):
         gs = [g for g in ix.all_guards() if g["errs"]]
         before = {g["errs"][0].split("::")[-1]: INV.norm(g["raw"]) for g in gs if g["node"]["sp"][0] < rs[0]["sp"][0]}
         want = {
-            "WeightBiggerThanMaxNumBits": "(ruzstd::huff0::huff0_decoder::MAX_MAX_NUM_BITS < @Iterator::next[*])",
+            "WeightBiggerThanMaxNumBits": "(11 < @Iterator::next[*])",
             "MissingWeights": "(0 == @mut:0)",
             "MaxBitsTooHigh": None,
             "LeftoverIsNotAPowerOf2": None,
         }
         for k, v in want.items():
-            ok = k in before and (v is None or before[k] == v or (k == "WeightBiggerThanMaxNumBits" and before[k].startswith("(ruzstd::huff0::huff0_decoder::MAX_MAX_NUM_BITS < ")))
+            ok = k in before and (v is None or before[k] == v or (k == "WeightBiggerThanMaxNumBits" and before[k].startswith("(11 < ")))
             ctx.check(ok, R, "build_table_from_weights::" + k, b["file"], "%s must be rejected before the table is sized and filled" % k,
                       observed=before.get(k))
-        ctx.check(before.get("MaxBitsTooHigh", "").startswith("(ruzstd::huff0::huff0_decoder::MAX_MAX_NUM_BITS < "), R,
+        ctx.check(before.get("MaxBitsTooHigh", "").startswith("(11 < "), R,
                   "build_table_from_weights::max-bits-compared-with-11", b["file"], "max bits compared with MAX_MAX_NUM_BITS", observed=before.get("MaxBitsTooHigh"))
         ctx.check("is_power_of_two" in before.get("LeftoverIsNotAPowerOf2", "") and before["LeftoverIsNotAPowerOf2"].startswith("!"), R,
                   "build_table_from_weights::leftover-power-of-two", b["file"], "leftover must be a power of two", observed=before.get("LeftoverIsNotAPowerOf2"))
@@ -102,7 +102,7 @@ def run(ctx):
         wb = ctx.hir(HUFE + "::HuffmanEncoder::write_table")
         wix = hq.Index(wb)
         top = [x for x in hq.find(wb["body"], lambda x: x.get("k") == "If" and "weights.len()" in H.show(x["cond"]))]
-        ctx.check(len(top) == 1 and H.show(hq.peel(top[0]["cond"])) == "(weights.len() > 16)", RH, "writer::direct-up-to-16", wb["file"],
+        ctx.check(len(top) == 1 and H.show(hq.peel(top[0]["cond"])) == "(16 < weights.len())", RH, "writer::direct-up-to-16", wb["file"],
                   "direct representation for at most 16 weights (header <= 143)", observed=[H.show(x["cond"]) for x in top])
         fse_b, dir_b = top[0]["then"], top[0]["else"]
         w1 = [x for x in hq.find(dir_b, lambda x: x.get("k") == "MethodCall" and x["name"] == "write_bits")]
@@ -120,7 +120,7 @@ def run(ctx):
         ok = len(seq2) == 2 and seq2[0] == ("write_bits", ["0", "8"]) or (len(seq2) == 2 and seq2[0][0] == "write_bits" and seq2[0][1][1] == "8")
         ok = ok and seq2[1][0] == "change_bits" and seq2[1][1] == ["size_idx", "(encoded_len as u8)", "8"]
         asserts = [H.show(x["cond"]) for x in hq.find(fse_b, lambda x: x.get("k") == "If" and (x.get("mac") or "").startswith("assert"))]
-        ok = ok and any("encoded_len < 128" in a for a in asserts)
+        ok = ok and any("encoded_len < 128" in a or "128 <= encoded_len" in a for a in asserts)
         si = [x for x in hq.find(fse_b, lambda x: x.get("k") == "LetStmt" and x["pat"].get("name") == "size_idx")]
         ok = ok and len(si) == 1 and si[0]["sp"][1] < w2[0]["sp"][0]
         ctx.check(ok, RH, "writer::fse-size-byte", wb["file"], "FSE path: placeholder byte first, compressed length asserted < 128 and back-patched into it",
